@@ -340,6 +340,10 @@ class Conn:
         self.closed = False
         self.shut_wr = False
         self.peer_closed = False
+        self.reset = False
+        # a socket accepted while a process-wide default timeout is set inherits it
+        # (socket.setdefaulttimeout); settimeout() sets its own
+        self.timeout = net.default_timeout
 
     def makefile(self, mode="r", buffering=-1, **k):
         raw = _Raw(self)
@@ -349,14 +353,27 @@ class Conn:
 
     def sendall(self, data):
         self.net.sched.yield_point("sendall:%s" % self.client.name)
+        if self.reset:
+            raise ConnectionResetError(104, "Connection reset by peer")
         if self.closed or self.peer_closed:
             raise BrokenPipeError("Broken pipe")
         self.out += bytes(data)
 
     send = sendall
 
+    def wait_readable(self):
+        """blocks until there is something to read; with a timeout on the socket, running out of
+        time before the peer sends is one more thing that may happen (a deviation)"""
+        s = self.net.sched
+        if self.timeout is not None and not (self.inbuf or self.eof):
+            if s.timeout_fires("recv:%s" % self.client.name):
+                raise TimeoutError("timed out")
+        s.block_until(lambda: self.inbuf or self.eof, "recv:%s" % self.client.name)
+        if self.reset and not self.inbuf:
+            raise ConnectionResetError(104, "Connection reset by peer")
+
     def recv(self, n):
-        self.net.sched.block_until(lambda: self.inbuf or self.eof, "recv:%s" % self.client.name)
+        self.wait_readable()
         d, self.inbuf = self.inbuf[:n], self.inbuf[n:]
         return d
 
@@ -368,7 +385,10 @@ class Conn:
         self.closed = True
 
     def settimeout(self, t):
-        pass
+        self.timeout = t
+
+    def gettimeout(self):
+        return self.timeout
 
     def setsockopt(self, *a):
         pass
@@ -389,7 +409,7 @@ class _Raw(io.RawIOBase):
 
     def readinto(self, b):
         c = self.conn
-        c.net.sched.block_until(lambda: c.inbuf or c.eof, "recv:%s" % c.client.name)
+        c.wait_readable()
         n = min(len(b), len(c.inbuf))
         b[:n] = c.inbuf[:n]
         c.inbuf = c.inbuf[n:]
@@ -426,6 +446,7 @@ class ListenSocket:
         if client.hung_up:
             conn.eof = True
             conn.peer_closed = True
+            conn.reset = client.was_reset
         return conn, conn.getpeername()
 
     def close(self):
@@ -483,6 +504,7 @@ class FakeSelector:
 
 
 HANGUP = object()      # fragment marker: the client closes its end of the connection
+RESET = object()       # fragment marker: the client's end goes away abortively (the server sees a RST)
 
 
 class Client:
@@ -499,6 +521,7 @@ class Client:
         self.early = b""
         self.queued = False
         self.hung_up = False
+        self.was_reset = False
 
     def enabled(self):
         if self.pos == -1:
@@ -523,6 +546,14 @@ class Client:
                 self.conn.eof = True
                 self.conn.peer_closed = True
             return
+        if frag is RESET:
+            self.hung_up = True
+            self.was_reset = True
+            if self.conn is not None:
+                self.conn.eof = True
+                self.conn.peer_closed = True
+                self.conn.reset = True
+            return
         if self.conn is not None:
             self.conn.inbuf += frag
         else:
@@ -538,6 +569,7 @@ class Net:
         self.sched = Sched(ctx)
         self.listening = None
         self.clients = []
+        self.default_timeout = None      # what socket.setdefaulttimeout was last given
 
     def add_client(self, fragments):
         c = Client(self, len(self.clients), fragments)
